@@ -3,7 +3,7 @@
     S_rej_ntt_stream / S_rej_bounded_stream / S_sample_in_ball transcribe FIPS 204 Alg. 14/15/29-30-31;
     the polynomial samplers are stated over an arbitrary XOF output stream [tape] (the model's samplers are
     generic in how blocks are obtained; [tape_sq rate] serves consecutive blocks of the stream). *)
-From DV Require Import Base MReduce MParams MPoly PSample.
+From DV Require Import Base MReduce MParams MPoly MPolyvec MSign PSample PBridge.
 
 Theorem C17_rej_uniform : forall (a : list Z) (alen : Z) (buf : list Z) (buflen : Z),
   Forall is_byte buf -> 0 <= alen -> 0 <= buflen <= zlen buf -> alen <= zlen a ->
@@ -68,6 +68,58 @@ Theorem C17_challenge : forall (tape : list Z) (tau : Z) (fuel : nat) (c : list 
   S_sample_in_ball tau (firstn 8 tape) (skipn 8 tape) = Some c.
 Proof. exact challenge_tape_ok. Qed.
 Print Assumptions C17_challenge.
+
+(** ... and with the REAL sponge (C12): each sampler is the specification's function of (seed, nonce).
+    rej_stream_poly smp H rate k0 kmax p: p is the first 256 accepted values of the stream H, taken from the least
+    number k of blocks (k0 <= k <= kmax) that contains 256 acceptances; xof_in n seed nonce = seed[0..n] || nonce (LE16) *)
+Theorem C17_uniform_real : forall (a0 seed : list Z) (nonce : Z) (p : list Z),
+  length a0 = 256%nat -> 32 <= zlen seed -> Forall is_byte (firstn 32 seed) ->
+  poly_uniform a0 seed nonce = Ok p ->
+  rej_stream_poly S_rej_ntt_stream (SKeccak.S_shake 168 (xof_in 32 seed nonce)) 168 5 (5 + SAMPLER_FUEL) p /\ length p = 256%nat /\ Forall (fun x => 0 <= x < Q) p.
+Proof. exact poly_uniform_ok. Qed.
+Print Assumptions C17_uniform_real.
+
+Theorem C17_uniform_eta_real : forall (eta : Z) (a0 seed : list Z) (nonce : Z) (p : list Z),
+  eta = 2 \/ eta = 4 -> length a0 = 256%nat -> 64 <= zlen seed -> Forall is_byte (firstn 64 seed) ->
+  poly_uniform_eta eta a0 seed nonce = Ok p ->
+  rej_stream_poly (S_rej_bounded_stream eta) (SKeccak.S_shake 136 (xof_in 64 seed nonce)) 136 1 (1 + SAMPLER_FUEL) p /\ length p = 256%nat /\ Forall (fun x => - eta <= x <= eta) p.
+Proof. exact poly_uniform_eta_ok. Qed.
+Print Assumptions C17_uniform_eta_real.
+
+Theorem C17_uniform_gamma1_real : forall (g1 : Z) (seed : list Z) (nonce : Z),
+  g1 = 131072 \/ g1 = 524288 -> 64 <= zlen seed -> Forall is_byte (firstn 64 seed) ->
+  let y := PPack.BitUnpack (SKeccak.S_shake 136 (xof_in 64 seed nonce) 680) (g1 - 1) g1 in
+  poly_uniform_gamma1 g1 seed nonce = Ok y /\ length y = 256%nat /\ Forall (fun x => - g1 < x <= g1) y.
+Proof. exact poly_uniform_gamma1_ok. Qed.
+Print Assumptions C17_uniform_gamma1_real.
+
+Theorem C17_challenge_real : forall (tau ct : Z) (seed c : list Z),
+  0 <= tau <= 256 -> 0 <= ct <= zlen seed -> Forall is_byte (firstn (Z.to_nat ct) seed) ->
+  poly_challenge tau ct seed = Ok c ->
+  let s := SKeccak.S_shake 136 (firstn (Z.to_nat ct) seed) (N_CHALLENGE tau) in
+  length c = 256%nat /\ ternary c /\ weight c = tau /\ S_sample_in_ball tau (firstn 8 s) (skipn 8 s) = Some c.
+Proof. exact poly_challenge_ok. Qed.
+Print Assumptions C17_challenge_real.
+
+(** ExpandA: entry (i,j) is RejNTTPoly(rho || j || i) *)
+Theorem C17_matrix_expand : forall (P : params) (rho : list Z) (mat : list (list (list Z))),
+  0 <= pK P <= 256 -> 0 <= pL P <= 256 -> 32 <= zlen rho -> Forall is_byte (firstn 32 rho) ->
+  matrix_expand P (zmat (pK P) (pL P)) rho = Ok mat ->
+  length mat = Z.to_nat (pK P) /\ forall (i : nat) (row : list (list Z)), nth_error mat i = Some row ->
+    length row = Z.to_nat (pL P) /\ forall (j : nat) (p : list Z), nth_error row j = Some p ->
+      rej_stream_poly S_rej_ntt_stream (SKeccak.S_shake 168 (firstn 32 rho ++ [Z.of_nat j; Z.of_nat i])) 168 5 (5 + SAMPLER_FUEL) p /\ length p = 256%nat /\ Forall (fun x => 0 <= x < Q) p.
+Proof. exact expandA_ok. Qed.
+Print Assumptions C17_matrix_expand.
+
+(** ExpandMask: component i is BitUnpack of SHAKE256(rho'' || L*kappa + i) *)
+Theorem C17_expand_mask : forall (P : params) (v : list (list Z)) (seed : list Z) (kappa : Z),
+  pGAMMA1 P = 131072 \/ pGAMMA1 P = 524288 -> length v = Z.to_nat (pL P) -> 0 <= pL P -> 0 <= kappa ->
+  pL P * kappa + pL P <= 65536 -> 64 <= zlen seed -> Forall is_byte (firstn 64 seed) ->
+  l_uniform_gamma1 P v seed kappa =
+  Ok (map (fun i => PPack.BitUnpack (SKeccak.S_shake 136 (xof_in 64 seed (pL P * kappa + i)) 680) (pGAMMA1 P - 1) (pGAMMA1 P))
+          (zrange 0 (pL P))).
+Proof. exact l_uniform_gamma1_ok'. Qed.
+Print Assumptions C17_expand_mask.
 
 Example C17_nonvacuous :
   rej_uniform [9; 9; 9] 3 [0; 224; 127; 1; 224; 127; 0; 224; 255] 9 = Ok ([8380416; 8380416; 9], 2) /\
